@@ -200,14 +200,15 @@ def main(a, seed):
   nodes_info = {}
   pool = mp.get_context("fork").Pool(min(a.procs, 12))
   try:
-    for cfg in cfgs:
+    def do_cfg(cfg):
+      nonlocal validated
       P, H, LMAX = cfg["P"], cfg["H"], cfg["LMAX"]
       FL = bool(cfg.get("faults"))
       try:
         m = Model(path, P=P, LMAX=LMAX, H=H, faults=FL)
       except Unsupported as e:
         inconcl.append({"clause": "translator", "why": "translator does not support the current source: %s" % e})
-        continue
+        return
       nodes_info["P%dH%d" % (P, H)] = {"cfg_nodes": m.nodes_before_reduction, "after_reduction": m.nodes_total()}
       # 1. completeness threshold: smallest K of the ladder with no longer run
       K = None
@@ -231,11 +232,11 @@ def main(a, seed):
                          "detail": what, "model": {"wait": r["wait"], "L": r["L"], "choices": r["choices"], "targets": r["targets"],
                                                    "faults": r.get("faults"), "schedule": r["schedule"]},
                          "run": run, "what": what})
-            continue
+            return
         if K is None:
           msg = {"clause": "completeness-threshold", "why": "no K of %r proved sufficient for P=%d H=%d (last: %s)" % (cfg["Ks"], P, H, all_results[-1]["result"])}
           (inconcl if cfg["claim"] else samples_out).append(msg if cfg["claim"] else dict(msg, note="not claimed"))
-          if cfg["claim"]: continue
+          if cfg["claim"]: return
           K = cfg["Ks"][-1]
       else:
         K = cfg["Ks"][0]
@@ -295,6 +296,21 @@ def main(a, seed):
             errors.append({"why": "model run and real run differ", "status": rep["status"], "detail": rep.get("detail", "")[:300],
                            "model_events": run["events"], "real_events": real, "trace_violations": _real_trace_ok(rep, run),
                            "choices": run["choices"], "wait": run["wait"], "L": run["L"]})
+    def guarded(cfg):
+      try:
+        do_cfg(cfg)
+      except BaseException as e:
+        import traceback
+        errors.append({"why": "configuration crashed: %r" % (e,), "cfg": {k: v for k, v in cfg.items() if k != "Ks"},
+                       "trace": traceback.format_exc()[-1200:]})
+    if tier == "quick":
+      # the bug-hunting configurations (capped sat searches) run next to the claimed one: they share the process pool
+      import threading
+      ths = [threading.Thread(target=guarded, args=(c,)) for c in cfgs]
+      for t in ths: t.start()
+      for t in ths: t.join()
+    else:
+      for c in cfgs: guarded(c)
   finally:
     pool.terminate()
 
